@@ -78,7 +78,12 @@ func c12Positions() []pposition {
 		}, stmtContents, ""},
 		{"statement-in-loop", func(in string) string {
 			return "script S {\nwhile (flag(G)) {\npre\n" + in + "\n}\nmsgbox(\"t1\")\n}\nscript S2 {\nmsgbox(\"t2\")\n}\n"
-		}, append(append([]pcontent{}, stmtContents...), pcontent{"break", "break", false}, pcontent{"if (flag(H%d)) {\nbreak\n}\nz%d", "if (flag(H%d)) {\nbreak\n}\nz%d", true}), ""},
+		}, append(append([]pcontent{}, stmtContents...), pcontent{"break", "break", false}, pcontent{"if (flag(H%d)) {\nbreak\n}\nz%d", "if (flag(H%d)) {\nbreak\n}\nz%d", true}, pcontent{"c%d\ncontinue", "c%d\ncontinue", true}), ""},
+		// the poryswitch is the last statement of a switch case that another case follows, inside a loop: a selected case ending in
+		// 'continue' makes the written-out program ill-formed there, and then the poryswitch program must be rejected too
+		{"statement-in-switch-case-in-loop", func(in string) string {
+			return "script S {\nwhile (flag(G)) {\npre\nswitch (var(Q)) {\ncase 1:\n" + in + "\ncase 2:\nz\ndefault:\ny\n}\n}\nmsgbox(\"t1\")\n}\n"
+		}, []pcontent{stmtContents[0], stmtContents[1], stmtContents[5], {"continue", "continue", false}, {"c%d\ncontinue", "c%d\ncontinue", true}, {"break", "break", false}}, ""},
 		{"statement-in-mapscript", func(in string) string {
 			return "mapscripts Map {\nON_LOAD {\n" + in + "\n}\nON_FRAME [\nVAR_A, 1 {\nmsgbox(\"t1\")\n}\n]\n}\n"
 		}, stmtContents, ""},
@@ -354,10 +359,10 @@ func runC12(tier string) int {
 	r.Set("case_label_lists", len(lists))
 	r.Assume("generator-side selection: the case whose label equals the -s value, else '_'",
 		"a poryswitch nested in a non-selected case must itself have a matching case or '_' (the property's last clause is not limited to selected positions)",
-		"the selected program must itself be well-formed; case contents never contain 'continue'",
+		"where the written-out program is ill-formed (a continue that is not last), the poryswitch program must be rejected as well",
 		"line markers off; all switch keys defined; the file also defines constants named like case labels and switch values")
 	return r.Finish(r.Get("evaluations"), r.Get("nontrivial"),
-		"every poryswitch with 1-3 distinct case labels from {A, B, 1, _} in every order x colon/brace form per case x every content assignment (11-13 statement contents incl. one literal formatted under different parameters in different cases, inline texts, typed texts, labels, control flow, nested poryswitches; 8 text contents incl. typed, formatted (also one literal under three parameter sets) and multi-part; 7 movement and 6 mart contents incl. nested poryswitches, multipliers, terminators) in 8 positions (statement, in if, in loop, in inline map script, text, movement, moves(), mart) x -s value in {A, B, 1, non-matching, empty}; plus poryswitches with K cases for every K up to the bound in the coverage in every position with the first / middle / last case or '_' selected; also every identifier-like literal of the compiler's own source as case label, -s value and switch key in every position; also every program of the control-flow families (C01 / C03 / C04 bounds) with its whole body, every block, or one top-level statement moved into the selected case (brace and colon form, selected directly and through '_'); output compared byte for byte with the program in which the selected case is written out; non-trivial = >= 2 cases")
+		"every poryswitch with 1-3 distinct case labels from {A, B, 1, _} in every order x colon/brace form per case x every content assignment (11-13 statement contents incl. one literal formatted under different parameters in different cases, inline texts, typed texts, labels, control flow, nested poryswitches; 8 text contents incl. typed, formatted (also one literal under three parameter sets) and multi-part; 7 movement and 6 mart contents incl. nested poryswitches, multipliers, terminators) in 9 positions (statement, in if, in loop, in a switch case of a loop before further cases, in inline map script, text, movement, moves(), mart) x -s value in {A, B, 1, non-matching, empty}; plus poryswitches with K cases for every K up to the bound in the coverage in every position with the first / middle / last case or '_' selected; also every identifier-like literal of the compiler's own source as case label, -s value and switch key in every position; also every program of the control-flow families (C01 / C03 / C04 bounds) with its whole body, every block, or one top-level statement moved into the selected case (brace and colon form, selected directly and through '_'); output compared byte for byte with the program in which the selected case is written out; non-trivial = >= 2 cases")
 }
 
 // c12Wrappings rewrites a printed single-script program (one statement per line, tab indentation) so that
